@@ -326,6 +326,23 @@ class _RawConfigParser(configparser.RawConfigParser):
     # duplicate check and interpolation all look keys up through this hook.
     return _normalise_key(option)
 
+  def options(self, section):
+    # [Variables] is the default section so that ${NAME} resolves everywhere,
+    # but its keys are not entries of the other sections.
+    if section == self.default_section:
+      return list(self._defaults.keys())
+    try:
+      return list(self._sections[section].keys())
+    except KeyError:
+      raise configparser.NoSectionError(section) from None
+
+  def has_option(self, section, option):
+    if not section or section == self.default_section:
+      return self.optionxform(option) in self._defaults
+    if section not in self._sections:
+      return False
+    return self.optionxform(option) in self._sections[section]
+
 class ConfigParser(object):
   """Performs initial stage (tokenizing) of generating a potential model
   suitable for tabulation functions."""
